@@ -549,7 +549,10 @@ def run_check(prop, tier, seed, args):
         if v["inv"] in seen:
             continue
         seen.add(v["inv"])
-        mdesc, ok = minimise(prop, v["desc"], v["inv"])
+        from .core import Watchdog
+
+        with Watchdog(900, f"minimisation of {prop} run {r['i']}"):
+            mdesc, ok = minimise(prop, v["desc"], v["inv"])
         if not ok:
             print(f"HARNESS-ERROR violation of run {r['i']} ({v['inv']}: {v['detail']}) did not reproduce in-process", file=sys.stderr)
             return 2
